@@ -30,7 +30,7 @@ class PyFile:
 
     def fixture(self, name, params=(), scope=None, autouse=False, body=("return 1",),
                 name_kw=None, doc=None, async_=False, deco="pytest.fixture", indent="",
-                multiline=False, ret=None, extra_decos=()):
+                multiline=False, ret=None, extra_decos=(), oneline=False):
         kws = []
         if scope is not None: kws.append(f'scope="{scope}"')
         if autouse: kws.append("autouse=True")
@@ -47,6 +47,13 @@ class PyFile:
             for p in params:
                 self.add(f"{indent}    {p},", hot=True)
             self.add(f"{indent}{tail}", hot=True)
+        elif oneline and doc is None and len(body) == 1:
+            # the whole function on one line: its first line is its last
+            ln = self.add(head + ", ".join(params) + tail + " " + body[0], hot=True)
+            self.defs.append((name_kw or name, ln))
+            self.funcs.append((name, ln, "fixture"))
+            self.blank()
+            return ln
         else:
             ln = self.add(head + ", ".join(params) + tail, hot=True)
         self.defs.append((name_kw or name, ln))
